@@ -260,7 +260,23 @@ def random_model(rnd, size):
                 call = {'function': {'name': rnd.choice(fnames), 'args': args}}
                 out.append({'expr': {'name': 'r', 'expr': call}} if rnd.random() < 0.6 else {'expr': {'expr': call}})
         return out
-    return {'statements': stmts(rnd.randint(1, min(40, 4 + 6 * size)), False)}
+    out = stmts(rnd.randint(1, min(40, 4 + 6 * size)), False)
+    if rnd.random() < 0.06:
+        # an old definition kept under a second name, the name defined again, the old body then calls its own NAME: that is a call of the new binding
+        name = rnd.choice(fnames)
+        old = {'function': {'name': name, 'args': ['a1'], 'statements': [
+            log_stmt('old'), inc_stmt('k'), {'jump': {'label': 'tc', 'expr': {'binary': {'op': '>', 'left': V('k'), 'right': {'number': 3.0}}}}},
+            {'return': {'expr': {'function': {'name': name, 'args': [V('a1')]}}}}, {'label': 'tc'}, {'return': {'expr': {'string': 'old-done'}}}]}}
+        new = {'function': {'name': name, 'args': ['a1'], 'statements': rnd.choice([
+            [log_stmt('new'), {'return': {'expr': {'string': 'new-done'}}}],
+            [log_stmt('new'), inc_stmt('k'), {'jump': {'label': 'tc', 'expr': {'binary': {'op': '>', 'left': V('k'), 'right': {'number': 2.0}}}}},
+             {'return': {'expr': {'function': {'name': name, 'args': [V('a1')]}}}}, {'label': 'tc'}, {'return': {'expr': V('k')}}]])}}
+        rebind = rnd.choice([new, new, {'expr': {'name': name, 'expr': {'number': 5.0}}}, {'expr': {'name': name, 'expr': V('null')}}])
+        block = [old, {'expr': {'name': 'al', 'expr': V(name)}}, rebind, {'expr': {'name': 'r', 'expr': {'function': {'name': 'al', 'args': [V('n')]}}}},
+                 {'expr': {'expr': {'function': {'name': 'systemLog', 'args': [V('r')]}}}}]
+        at = rnd.randint(0, len(out))
+        out[at:at] = block
+    return {'statements': out}
 
 
 def classify(model, vm_result):
